@@ -28,19 +28,20 @@ Check (C17_commit_v_opens :
     c_value c = Z.rem (v * gw) (ck_N ck)).
 Print Assumptions C17_commit_v_opens.
 
-(* finding F16 on the faithful model: the first response of every same-secret sub-proof of a range proof, divided by the public
-   challenge, is the secret it answers for up to (2^(l+t) b - 1) / challenge -- with the 256-bit challenge of the code, the secret itself *)
+(* the first response of every same-secret sub-proof of a range proof, divided by the public challenge, pins its secret up to
+   (2^(l + ss_t) b - 1) / challenge.  Before fix ba36c2c (blinding for a t-bit challenge, b = rmax) this was the secret itself (F16);
+   with ss_t = max(t, 256) and b >= the secret the window is 2^l times wider than the secret *)
 Theorem C17_same_secret_response_pins_x :
-  forall BP x r1 r2 g1 h1 g2 h2 b n ds p ds',
+  forall BP x r1 r2 g1 h1 g2 h2 b n s2x ds p ds',
   Forall int_ok ds ->
-  proof_same_secret BP x r1 r2 g1 h1 g2 h2 b n ds = Ok (p, ds') ->
+  proof_same_secret BP x r1 r2 g1 h1 g2 h2 b n s2x ds = Ok (p, ds') ->
   (0 < ss_chal p)%Z ->
-  (x <= ss_d p / ss_chal p <= x + (two (b_l BP + b_t BP) * b - 1) / ss_chal p)%Z.
+  (x <= ss_d p / ss_chal p <= x + (two (b_l BP + ss_t BP) * b - 1) / ss_chal p)%Z.
 Proof. exact same_secret_response_pins_x. Qed.
 Check (C17_same_secret_response_pins_x :
-  forall BP x r1 r2 g1 h1 g2 h2 b n ds p ds',
+  forall BP x r1 r2 g1 h1 g2 h2 b n s2x ds p ds',
   Forall int_ok ds ->
-  proof_same_secret BP x r1 r2 g1 h1 g2 h2 b n ds = Ok (p, ds') ->
+  proof_same_secret BP x r1 r2 g1 h1 g2 h2 b n s2x ds = Ok (p, ds') ->
   (0 < ss_chal p)%Z ->
-  (x <= ss_d p / ss_chal p <= x + (two (b_l BP + b_t BP) * b - 1) / ss_chal p)%Z).
+  (x <= ss_d p / ss_chal p <= x + (two (b_l BP + ss_t BP) * b - 1) / ss_chal p)%Z).
 Print Assumptions C17_same_secret_response_pins_x.
